@@ -26,7 +26,14 @@ def rand_int(rng, kind: str, in_range=False) -> int:
     lim = LIMITS[kind]
     if in_range:
         return rng.choice([0, 1, lim - 1, lim // 253, max(0, lim // 253 - 1), rng.randrange(lim)])
-    return rng.choice([0, 1, lim - 1, lim, lim + 1, 2 * lim, 10 ** 12, rng.randrange(lim), rng.randrange(2 * lim)])
+    # every limit is a boundary for every width (a check that confuses widths, or relies on the shape of the
+    # 4-byte encoding, shows up just above *another* type's limit), plus the window above INT_MAX where the
+    # fourth encoded byte coincides with the 0xFE filler
+    allb = [b + d for b in (256, 253, 253 ** 2, 253 ** 3, 253 ** 4) for d in (-1, 0, 1)]
+    top = 253 ** 4
+    return rng.choice([0, 1, lim - 1, lim, lim + 1, 2 * lim, 10 ** 12, rng.randrange(lim), rng.randrange(2 * lim),
+                       rng.choice(allb), rng.choice(allb), top + rng.randrange(253 ** 3), top + 253 ** 3 + rng.randrange(253 ** 3),
+                       2 ** 24, 2 ** 32, 254 * 253 ** 3 + rng.randrange(253 ** 3)])
 
 
 def cp1252(s: str) -> bytes:
